@@ -2,7 +2,10 @@ package node
 
 import (
 	"bytes"
+	"fmt"
 	"strings"
+
+	"github.com/freeconf/yang/fc"
 )
 
 type PathMatcher interface {
@@ -25,6 +28,21 @@ type PathMatchExpression struct {
 type segments []string
 
 func ParsePathExpression(selector string) (*PathMatchExpression, error) {
+	depth := 0
+	for _, c := range selector {
+		switch c {
+		case '(':
+			depth++
+		case ')':
+			depth--
+		}
+		if depth < 0 {
+			break
+		}
+	}
+	if depth != 0 {
+		return nil, fmt.Errorf("%w. unbalanced parentheses in path expression '%s'", fc.BadRequestError, selector)
+	}
 	pe := &PathMatchExpression{}
 	pe.parsex(&lex{selector: selector})
 	return pe, nil
@@ -185,27 +203,39 @@ func (e *PathMatchExpression) PathMatches(base *Path, candidate *Path) bool {
 	return false
 }
 
+// PathSelects is PathMatches without the nodes that are merely on the way to a
+// selected node: true only when candidate is a selected node or below one.
+func (e *PathMatchExpression) PathSelects(base *Path, candidate *Path) bool {
+	n := candidate.Len() - base.Len()
+	for _, path := range e.paths {
+		if len(path) > 0 && len(path) <= n && e.match(path, base, candidate) {
+			return true
+		}
+	}
+	return false
+}
+
 func (e *PathMatchExpression) match(segs segments, base *Path, candidate *Path) bool {
 	p := candidate
-	j := (candidate.Len() - base.Len()) - 1
+
+	// number of segments the candidate has below base
+	n := candidate.Len() - base.Len()
 
 	// start navigation at the end of the tail as it would likely be more efficient the longer
-	// the path
-	for i := len(segs) - 1; i >= 0; {
-
-		// we keep peeling back slice as long as it continues to match candidate as we
-		// peel that back as well.
-		if j == i {
-			if p.Meta.Ident() != segs[i] {
-				return false
-			}
-			i--
+	// the path.  Where the candidate is longer than the selector it is below the
+	// selected node, where it is shorter it is on the way to it: either way only the
+	// segments both have can disagree.
+	for j := n - 1; j >= 0; j-- {
+		if p == nil {
+			return false
+		}
+		if j < len(segs) && p.Meta.Ident() != segs[j] {
+			return false
 		}
 		p = p.Parent
-		if p == nil {
-			panic("illegal call : base was not found to be any parent of candidate")
-		}
-		j--
+	}
+	if p == nil || base == nil {
+		return p == base
 	}
 
 	// the subpath AFTER base path matches, now we have to see if we have same
